@@ -29,7 +29,7 @@ CORPUS_API = [
     "(max x y x)", "(max (i 1) (i 2) x)", "(min x (q 1 2) (i 3))", "(add (mul (i 2) (add x y)) (sub z (add x y)))",
     "(mul (sqrt (pow x (i 2))) (mul x (sqrt (pow x (i 2)))))", "(add (pow (i 0) x) (pow (i 0) x))", "(mul y (pow (i 0) x))",
     "(mul z (pow (pow (i -2) (q 1 2)) (q 2 3)))", "(pow (i 0) I)", "(mul (pow (pow x (i 2)) (q 3 2)) (pow (pow x (i 2)) (q 1 2)))",
-    "(pow (mul (pow z (i -1)) (sqrt (pow x (i 2)))) (i 2))",
+    "(pow (mul (pow z (i -1)) (sqrt (pow x (i 2)))) (i 2))", "(pow (i 1) (c 0 1 -1 1))", "(mul (pow (i 1) (c 0 1 -1 1)) (pow x y))",
 ]
 
 
